@@ -877,3 +877,24 @@ impl Proof {
         &self.justification
     }
 }
+
+/// Verification hooks (feature `verif-hooks`, off by default): let an external harness
+/// re-check a proof against an altered program or after a structural mutation.
+#[cfg(feature = "verif-hooks")]
+impl ProofStore {
+    /// Overwrite the proof stored under `id` (used to build structurally mutated proofs).
+    pub fn verif_set(&mut self, id: ProofId, proposition: Proposition, justification: Justification) {
+        self.id_to_proof.insert(
+            id,
+            Proof {
+                proposition,
+                justification,
+            },
+        );
+    }
+
+    /// Mutable access to the term dag (to build terms for mutated propositions).
+    pub fn verif_term_dag_mut(&mut self) -> &mut TermDag {
+        &mut self.term_dag
+    }
+}
